@@ -131,6 +131,34 @@ Example C36_partial_labels_example : forall v,
      (Some (VText "k0"), Some (VFresh "stub" (VText "k0"))); (Some (VText "k1"), Some (VFresh "stub" (VText "k0")))].
 Proof. exact pl_facts. Qed.
 
+(** The companion-value back-fill (30ffbaee18cd) has two variant sites, both extracted by the
+    translator: which tasks are "lonely" (no value row with the task's hash at all = [AnyValue], as
+    shipped / no value row of type "redun.Task" = [TypedValue]) and how the rows are written
+    (session.add = [AddRow], as shipped / session.merge = [MergeRow]).  [chain v] is
+    [chain_gen AnyValue AddRow v], for which C36_holds_fixed is the preservation theorem.
+    With (typed, merge) a task recorded as a Task *subclass* value (PartialTask, SchedulerTask, ...)
+    is taken for lonely and its value row is overwritten by the dummy Task pickle: refuted. *)
+Theorem C36_backfill_any_add_is_chain : forall v, chain v = chain_gen AnyValue AddRow v.
+Proof. reflexivity. Qed.
+
+Theorem C36_backfill_typed_merge_refuted : exists e d d',
+  e_dialect e = Sqlite /\ upgrade e (chain_gen TypedValue MergeRow KeepFraction) db_versions d = Ok d' /\
+  job_times_typed d /\
+  ~ preserved (expected (e_tz e) (d_rev d)) (exempt (d_rev d)) d d'.
+Proof.
+  exists env0, (pt_db KeepFraction), (pt_result TypedValue MergeRow).
+  exact (conj eq_refl (conj pt_upgrades (conj pt_typed pt_not_preserved))).
+Qed.
+
+(** Same database, other variants: kept by (any, add) and (any, merge); (typed, add) aborts the upgrade. *)
+Example C36_backfill_other_variants :
+  rows_of "value" (pt_result AnyValue AddRow) = [pt_value] /\
+  rows_of "value" (pt_result AnyValue MergeRow) = [pt_value] /\
+  upgrade env0 (chain_gen TypedValue AddRow KeepFraction) db_versions (pt_db KeepFraction) = Err (EUnique "value" "value_hash").
+Proof. exact pt_other_variants. Qed.
+
+Print Assumptions C36_backfill_typed_merge_refuted.
+Print Assumptions C36_backfill_other_variants.
 Print Assumptions C36_partial_labels_example.
 Print Assumptions C36_any_known_ops_preserve.
 Print Assumptions C36_upgrade_keeps_rows.
